@@ -52,6 +52,15 @@ Theorem C13_gen_parse_site_guarded : parse_site_guards_value_errors gen_tables =
 Proof. vm_compute. reflexivity. Qed.
 Print Assumptions C13_gen_parse_site_guarded.
 
+(* the conversion of parse_input around the builder of an input's object (fix 2747fab): whatever ValueError, TypeError,
+   AttributeError, LookupError (KeyError, IndexError) or LexError the constructors or the parser raise leaves the
+   `construct` and `parse` sites as a controlled exception *)
+Theorem C13_gen_construct_site_guarded :
+  site_guards gen_tables "construct" ["ValueError"; "TypeError"; "AttributeError"; "LookupError"; "LexError"] = true /\
+  site_guards gen_tables "parse" ["ValueError"; "TypeError"; "AttributeError"; "LookupError"; "LexError"] = true.
+Proof. vm_compute. auto. Qed.
+Print Assumptions C13_gen_construct_site_guarded.
+
 (* the per-input handler of parse_input and the pointer-update handlers report exactly these classes in check mode
    (a narrowed except tuple or a handler that re-raises breaks this) *)
 Definition warned_at (sname : string) (c : cls) : option (cls * bool) := warned_by H hs (site_chain gen_tables sname) c.
@@ -59,6 +68,13 @@ Theorem C13_gen_check_handlers :
   (forall c, In c ["MalformedInputError"; "ParsingError"; "BrokenObjectLinkError"; "NumberConflictError"; "UnknownElement"] ->
      forall s, In s ["construct"; "tree_none"; "link"; "append"] -> warned_at s c = Some (c, false))
   /\ warned_at "parse" "ValueError" = Some ("MalformedInputError", false)
+  /\ (forall c, In c ["ValueError"; "TypeError"; "AttributeError"; "KeyError"; "IndexError"; "LexError"] ->
+        warned_at "construct" c = Some ("MalformedInputError", false))
+  /\ warned_at "append_material" "NumberConflictError" = Some ("NumberConflictError", false)
+  /\ warned_at "append_transform" "NumberConflictError" = Some ("NumberConflictError", false)
+  /\ warned_at "load_data" "MalformedInputError" = Some ("MalformedInputError", false)
+  /\ (forall c, In c ["BrokenObjectLinkError"; "ParticleTypeNotInProblem"; "ParticleTypeNotInCell"] ->
+        warned_at "cells_modifiers" c = Some (c, false))
   /\ (forall s, In s ["parse"; "construct"; "syntax"; "read_card"] ->
         warned_at s "UnsupportedFeature" = Some ("UnsupportedFeature", true))
   /\ (forall c, In c ["BrokenObjectLinkError"; "MalformedInputError"; "ParticleTypeNotInProblem"; "ParticleTypeNotInCell"] ->
@@ -181,23 +197,17 @@ Example C13_check_mode_loop_ending_example :
 Proof. vm_compute. reflexivity. Qed.
 
 (* 4. CHECK MODE IS NOT COMPLETE on the current code (refuted, with the witnesses the search replays on the real code):
-      errors of normal mode that still RAISE in check mode.  The two append calls after the per-input try statement
-      (self._materials.append / self._transforms.append) and __load_data_inputs_to_object are outside every handler;
-      a bare ValueError raised deliberately by a constructor is not in the per-input except tuple. *)
+      errors of normal mode that still RAISE in check mode.  Both are raised inside the generator
+      read_input_syntax, around which parse_input only handles UnsupportedFeature: the MalformedInputError of a read
+      cycle (read_data) and the ParsingError of a malformed read input (ReadInput.__init__, re-raised by flush_input). *)
 Theorem C13_check_mode_complete_refuted :
-  raises_in_check_mode gen_tables "append_material" "NumberConflictError" /\
-  raises_in_check_mode gen_tables "append_transform" "NumberConflictError" /\
-  raises_in_check_mode gen_tables "load_data" "MalformedInputError" /\
-  raises_in_check_mode gen_tables "construct" "ValueError".
+  raises_in_check_mode gen_tables "syntax" "MalformedInputError" /\
+  raises_in_check_mode gen_tables "read_card" "ParsingError".
 Proof.
-  split; [|split; [|split]].
-  - destruct (find_check_leak gen_tables "append_material" "NumberConflictError") eqn:F;
+  split.
+  - destruct (find_check_leak gen_tables "syntax" "MalformedInputError") eqn:F;
       [eapply find_check_leak_sound; exact F | vm_compute in F; discriminate].
-  - destruct (find_check_leak gen_tables "append_transform" "NumberConflictError") eqn:F;
-      [eapply find_check_leak_sound; exact F | vm_compute in F; discriminate].
-  - destruct (find_check_leak gen_tables "load_data" "MalformedInputError") eqn:F;
-      [eapply find_check_leak_sound; exact F | vm_compute in F; discriminate].
-  - destruct (find_check_leak gen_tables "construct" "ValueError") eqn:F;
+  - destruct (find_check_leak gen_tables "read_card" "ParsingError") eqn:F;
       [eapply find_check_leak_sound; exact F | vm_compute in F; discriminate].
 Qed.
 Print Assumptions C13_check_mode_complete_refuted.
@@ -223,21 +233,18 @@ Proof.
 Qed.
 
 (* 5. LEAK-PRONE PRIMITIVE OPERATIONS (refuted / partial): operations of the reachable functions whose runtime
-      exception no try statement on the way out converts.  Witnesses: the int() of ValueNode._convert_to_int reached
-      from the constructors after the guarded parser call (u=1.5, a real where a surface number is expected), the
-      look-up of the FILL universe by number in the pointer update (fill=7 without universe 7), and the lexer's own
-      LexError (it is not a ValueError, so the guard of MCNP_Object.__init__ does not convert it). *)
+      exception no try statement on the way out converts.  Witnesses: the next() of Fill._parse_matrix reached from
+      the constructors (`fill 4 :56 59 59`: StopIteration is not among the classes parse_input converts) and the
+      subscript of the per-cell data list in Importance.push_to_cells during the pointer update (three cells,
+      `imp:n 1 1`: IndexError). *)
 Theorem C13_primitive_leaks_refuted :
-  leaks_primitive gen_tables "construct" "input_parser/syntax_node.py:ValueNode._convert_to_int" IntConv "ValueError" /\
-  leaks_primitive gen_tables "cells_modifiers" "data_inputs/fill.py:Fill.push_to_cells.get_universe" NumLookup "KeyError" /\
-  leaks_primitive gen_tables "parse" "input_parser/mcnp_input.py:Input.tokenize" Lex "LexError".
+  leaks_primitive gen_tables "construct" "data_inputs/fill.py:Fill._parse_matrix" Next "StopIteration" /\
+  leaks_primitive gen_tables "cells_modifiers" "data_inputs/importance.py:Importance.push_to_cells" Subscript "IndexError".
 Proof.
-  split; [|split].
-  - destruct (find_prim_leak gen_tables "construct" "input_parser/syntax_node.py:ValueNode._convert_to_int" IntConv "ValueError") eqn:F;
+  split.
+  - destruct (find_prim_leak gen_tables "construct" "data_inputs/fill.py:Fill._parse_matrix" Next "StopIteration") eqn:F;
       [eapply find_prim_leak_sound; exact F | vm_compute in F; discriminate].
-  - destruct (find_prim_leak gen_tables "cells_modifiers" "data_inputs/fill.py:Fill.push_to_cells.get_universe" NumLookup "KeyError") eqn:F;
-      [eapply find_prim_leak_sound; exact F | vm_compute in F; discriminate].
-  - destruct (find_prim_leak gen_tables "parse" "input_parser/mcnp_input.py:Input.tokenize" Lex "LexError") eqn:F;
+  - destruct (find_prim_leak gen_tables "cells_modifiers" "data_inputs/importance.py:Importance.push_to_cells" Subscript "IndexError") eqn:F;
       [eapply find_prim_leak_sound; exact F | vm_compute in F; discriminate].
 Qed.
 Print Assumptions C13_primitive_leaks_refuted.
@@ -251,10 +258,11 @@ Proof.
 Qed.
 Print Assumptions C13_primitive_leaks_partial.
 
-(* guarded instance: a float conversion inside the parser actions (site parse) is converted by MCNP_Object.__init__ *)
+(* guarded instance: an int() conversion reached from the constructors after the guarded parser call (site construct)
+   is converted by parse_input *)
 Example C13_primitive_leaks_partial_example : exists p,
-  In p (t_prims gen_tables) /\ p_site p = "parse" /\ p_kind p = FloatConv /\ ~ In p (prim_leaks gen_tables).
+  In p (t_prims gen_tables) /\ p_site p = "construct" /\ p_kind p = IntConv /\ ~ In p (prim_leaks gen_tables).
 Proof.
-  destruct (find_guarded_prim gen_tables "parse" FloatConv) eqn:F; [|vm_compute in F; discriminate].
+  destruct (find_guarded_prim gen_tables "construct" IntConv) eqn:F; [|vm_compute in F; discriminate].
   exists p. eapply find_guarded_prim_sound; exact F.
 Qed.
